@@ -77,6 +77,8 @@ def alphabet(d):
     optletters = [i.short for i in d.vals() if i.short]
     for i in d.items:
         a += ["--" + i.name, "--" + i.name + "=w", "--" + i.name + "=", "--no-" + i.name]
+        if i.kind == "t":
+            a += ["--no-" + i.name + "=w", "--no-" + i.name + "="]
         if i.short:
             a += ["-" + i.short, "-" + i.short + "=w", "-" + i.short + i.short]
     for x, y in itertools.product(togletters[:2], repeat=2):
